@@ -33,6 +33,7 @@ type WorldOpts struct {
 	MaxDepth     int     // nesting depth of inline schemas
 	Elements     int     // top-level elements per section (upper bound)
 	RefDensity   float64 // probability that a child position is a $ref holder
+	FragmentOnly bool    // references within a document are always spelled fragment-only
 	IDs          int     // 0 none; otherwise id variant (C04/C18 worlds only)
 	// faults (C08)
 	Dangling float64 // probability that a $ref slot points to a pointer that does not exist
@@ -599,6 +600,9 @@ func (g *worldGen) fillSlots() {
 		forms := []string{"abs", "rel", "dotrel", "rootrel"}
 		if t.doc == s.doc {
 			forms = []string{"fragment", "fragment", "fragment", "samefile", "abs"}
+			if g.o.FragmentOnly {
+				forms = forms[:1]
+			}
 		}
 		form := forms[g.r.Intn(len(forms))]
 		if si == 0 && force != nil {
